@@ -2,6 +2,7 @@ import ALV.Common.Json
 import ALV.Model.C03
 import ALV.Spec.C03
 import ALV.Spec.C03Call
+import ALV.Spec.C03X
 namespace ALV.Driver.C03
 open ALV ALV.J ALV.C03
 
@@ -205,6 +206,55 @@ def histOf {α : Type} (c : Codec α) (fl : Nat) (j : Json) : Except String Json
   pure <| Json.mkObj [("model", arr (obsJson c) m.1), ("spec", arr (obsJson c) s.1),
     ("model_lists", arr (arr c.put) m.2), ("spec_lists", arr (arr c.put) s.2)]
 
+/-! raising element functions (the harness holds the same tables in Python) -/
+def mapXT (k : Nat) : Int → Ev Int :=
+  match k with
+  | 0 => fun x => if x = 0 then .error "ZeroDivisionError" else .ok (Int.fdiv 12 x)      -- 12 // x
+  | 1 => fun x => if x % 3 = 0 then .error "ValueError" else .ok (x + 1)
+  | 2 => fun x => if x = 1 then .ok 5 else if x = 2 then .ok 7 else if x = 4 then .ok 1 else .error "KeyError"
+  | 3 => fun x => .ok (2 * x)
+  | _ => fun x => if x < 0 then .error "IndexError" else .ok x
+
+def predXT (k : Nat) : Int → Ev Bool :=
+  match k with
+  | 0 => fun x => if x = 0 then .error "ZeroDivisionError" else .ok (Int.fmod 6 x == 0)  -- 6 % x == 0
+  | 1 => fun x => if x = 5 then .error "TypeError" else .ok (decide (x > 2))
+  | _ => fun x => .ok (x % 2 == 0)
+
+/-- `s.real`, `s.imag`, `s.denominator`, `s.bit_length()`, `s.nope`, `s.conjugate()`, `s()` on ints -/
+def attrXT (k : Nat) : Int → Ev Int :=
+  match k with
+  | 0 => fun x => .ok x
+  | 1 => fun _ => .ok 0
+  | 2 => fun _ => .ok 1
+  | 3 => fun x => .ok (if x = 0 then 0 else (Nat.log2 x.natAbs + 1 : Nat))
+  | 4 => fun _ => .error "AttributeError"
+  | 5 => fun x => .ok x
+  | _ => fun _ => .error "TypeError"
+
+def getEv (j : Json) : Except String (Ev Int) :=
+  match optField j "raise" with
+  | some e => do pure (.error (← getStr e))
+  | none => do pure (.ok (← getInt j))
+
+def getXOp (j : Json) : Except String (XOp Int) := do
+  let o ← getStr (← field j "op")
+  let i : Except String Nat := do getNat (← field j "i")
+  match o with
+  | "new" => pure (.new (← getList getEv (← field j "es")))
+  | "take" => pure (.take (← i) (← getCnt (← field j "n")))
+  | "peek" => pure (.peek (← i) (← getCnt (← field j "n")))
+  | "skip" => pure (.skip (← i) (← getNat (← field j "n")))
+  | "limit" => pure (.limit (← i) (← getNat (← field j "n")))
+  | "append" => pure (.append (← i) (← getList getEv (← field j "es")))
+  | "map" => pure (.map (← i) (mapXT (← getNat (← field j "f"))))
+  | "filter" => pure (.filter (← i) (predXT (← getNat (← field j "p"))))
+  | "copy" => pure (.copy (← i))
+  | "next" => pure (.next (← i))
+  | "drain" => pure (.drain (← i))
+  | "attr" => pure (.attr (← i) (attrXT (← getNat (← field j "g"))))
+  | _ => throw s!"bad xop {o}"
+
 def callsOf {α : Type} (c : Codec α) (fl : Nat) (j : Json) : Except String Json := do
   let cs ← getList (getCall c) (← field j "ops")
   let m := crun fl (HSt.empty : HSt α) cs
@@ -214,6 +264,11 @@ def callsOf {α : Type} (c : Codec α) (fl : Nat) (j : Json) : Except String Jso
 
 def handle (entry : String) (j : Json) : Except String Json := do
   match entry with
+  | "xhist" =>
+    let ops ← getList getXOp (← field j "ops")
+    let m := xrun fuel (XSt.empty : XSt Int) ops
+    let s := xspecRun ([] : XPool Int) ops
+    pure <| Json.mkObj [("model", arr (obsJson intCodec) m), ("spec", arr (obsJson intCodec) s)]
   | "calls" =>
     let tagged := match optField j "tagged" with | some (Json.bool b) => b | _ => false
     let fl := match optField j "fuel" with | some (Json.int n) => n.toNat | _ => fuel
